@@ -39,6 +39,55 @@ def status_value(lib, e):
     return None
 
 
+def status_arms(lib, f, byval):
+    """The dispatch of loop() on mRequestStatus, as {status name: block}: a switch over the field, or a chain
+    if (status == A) {..} else if (status == B) {..} [else {..}] (either operand order).  -> (dispatch statement, arms)"""
+    def subject(e):
+        while e.k == 'cast':
+            e = e.a[2]
+        return path_of(e) == 'this.mRequestStatus'
+    sws = [s for s in walk_stmts(f.body) if s.k == 'switch' and subject(s.a[0])]
+    if len(sws) == 1:
+        arms = {}
+        for labels, blk in sws[0].a[1]:
+            for l in labels:
+                if l is None:
+                    arms['default'] = blk
+                else:
+                    v = status_value(lib, l)
+                    arms[byval.get(v, v)] = blk
+        return sws[0], arms
+
+    def test_of(cond):
+        c = cond
+        while c.k == 'cast':
+            c = c.a[2]
+        if c.k == 'bin' and c.a[0] == '==':
+            for x, y in ((c.a[1], c.a[2]), (c.a[2], c.a[1])):
+                if subject(x):
+                    return status_value(lib, y)
+        return None
+    for s in walk_stmts(f.body):
+        if s.k == 'if' and test_of(s.a[0]) is not None:
+            arms = {}
+            cur = s
+            while True:
+                v = test_of(cur.a[0])
+                if v is None:
+                    break
+                arms[byval.get(v, v)] = cur.a[1]
+                rest = [x for x in cur.a[2] if not (x.k == 'block' and not x.a[0])]
+                if len(rest) == 1 and rest[0].k == 'if' and test_of(rest[0].a[0]) is not None:
+                    cur = rest[0]
+                    continue
+                if rest:
+                    arms['default'] = rest
+                break
+            if len(arms) >= 2:
+                return s, arms
+    raise AnalysisError('%s: no dispatch over mRequestStatus found in loop() (neither a switch nor an if/else-if chain of equality tests)' % f.loc)
+
+
 def run(cfg):
     R = Report('C14', cfg)
     lib = cxx.load_lib(cfg)
@@ -65,18 +114,7 @@ def run(cfg):
     R.analysed['status_constants'] = consts
     byval = {v: k for k, v in consts.items()}
     ob('R1', SCL + '::kStatus*', f.loc, len(byval) == len(consts), 'status constants collide: %r' % consts)
-    sws = [s for s in walk_stmts(f.body) if s.k == 'switch' and path_of(s.a[0].a[2] if s.a[0].k == 'cast' else s.a[0]) == 'this.mRequestStatus']
-    if len(sws) != 1:
-        raise AnalysisError('%s: expected one switch over mRequestStatus' % f.loc)
-    sw = sws[0]
-    arms = {}
-    for labels, blk in sw.a[1]:
-        for l in labels:
-            if l is None:
-                arms['default'] = blk
-            else:
-                v = status_value(lib, l)
-                arms[byval.get(v, v)] = blk
+    sw, arms = status_arms(lib, f, byval)
     for name in consts:
         ob('R1', '%s::loop:arm(%s)' % (SCL, name), sw.loc, name in arms or 'default' in arms, 'status %s has no arm in loop(): the machine stops there' % name)
     trans = {}
@@ -251,32 +289,23 @@ def run(cfg):
         for fld in ('this.mReferenceClock', 'this.mBackupClock'):
             Engine(NR(g, fld)).run(g.body)
     sy = lib.fn(SC + '::syncNow')
-    okb = False
-    for s in walk_stmts(sy.body):
-        if s.k == 'if' and any(x.k == 'expr' and x.a[0].k == 'call' and x.a[0].a[0].endswith('::backupNow') for x in s.a[1]):
-            c_ = s.a[0]
-            while c_.k == 'cast':
-                c_ = c_.a[2]
-            if c_.k == 'bin' and c_.a[0] == '!=' and {path_of(c_.a[1]), path_of(c_.a[2])} == {'this.mBackupClock', 'this.mReferenceClock'}:
-                call = [x.a[0] for x in s.a[1] if x.k == 'expr' and x.a[0].k == 'call'][0]
-                okb = path_of(call.a[2][0]) == sy.params[0][0]
-    unguarded = [e for s in sy.body if s.k == 'expr' for e in [s.a[0]] if e.k == 'call' and e.a[0].endswith('::backupNow')]
-    ob('R6', sy.name + ':backup', sy.loc, okb and not unguarded, 'syncNow() does not back up exactly the synced value under "mBackupClock != mReferenceClock"')
+    # decided by the interpretation of syncNow() on clocks with a distinct / identical / absent backup (rules_C13)
+    from . import rules_C13
+    res = {}
+    sink = type('Sink', (), {'cfg': R.cfg, 'instance': lambda *a, **k: None, 'violation': lambda *a, **k: None})()
+    rules_C13.clock_scenarios(sink, lib, lambda rid, c, loc, ok_, msg, detail=None: res.__setitem__(c, (ok_, msg)), rules_C13.initial_values(lib),
+                              lib.const('ace_time::clock::Clock::kInvalidSeconds'), lib.fn(SC + '::getNow'), sy, lib.fn(SC + '::setNow'))
+    okb, whyb = res.get(sy.name + ':backup', (False, 'syncNow() could not be interpreted'))
+    ob('R6', sy.name + ':backup', sy.loc, okb, whyb)
     fsm_typestate(R, lib, f, arms, consts, byval, trans, ob)
     return R
 
 
 def _strip_breaks(blk):
-    """the statements of a switch arm without its trailing break (the path engine expects break inside a loop or switch)."""
-    out = []
-    for s in blk:
-        if s.k == 'break':
-            break
-        if s.k == 'block':
-            out.append(S('block', _strip_breaks(s.a[0]), loc=s.loc))
-        else:
-            out.append(s)
-    return out
+    """an arm as a block the engines can walk on its own: its `break`s (the trailing one, or an early one inside an if) leave
+    a one-armed switch wrapped around it."""
+    zero = E('const', 0)
+    return [S('switch', zero, [([zero], list(blk))], loc=blk[0].loc if blk else None)]
 
 
 def period_rules(R, lib, f, arms, now_var, ob):
